@@ -51,6 +51,7 @@ func checkC11(c *Ctx) {
 	c.R.Explanation = "Static rules over wasp/conn.go, wasp/packets.go, wasp/nodes.go, wasp/writer.go: (R1) teardown decision table: one registry delete, one subscription delete per remembered filter, the session record deleted whenever it is still ours — also after a clean DISCONNECT; (R2) every path out of the per-connection goroutine closes the connection; (R3) the keep-alive deadline is armed before the per-connection goroutine starts and re-armed after every processed packet; (R4) the read loop ends only when decoding or processing failed; (R5) subscribe/unsubscribe bookkeeping pairs; (R6) peer-failure cleanup removes the peer's subscriptions and session records by peer id; (R7) the fan-out dereferences a session only when the registry returned one; (R8) once a session is registered the goroutine that will tear it down is always started."
 	c.R.NotCovered = "Keep-alive arithmetic and wall-clock behaviour, delivery of the resulting gossip, quiescent cross-node consistency of listings."
 	c.R.Assume("closing the transport makes a blocked Decode return an error")
+	defer c.ruleKeepAliveZero("C11-R9")
 	ru1 := c.R.Rule("C11-R1", "teardown (first caller only): exactly one registry delete of the session's own id; a loop over session.GetTopics() deleting each subscription under the session's own id; on every path where the client id still resolves to this session the session record is deleted exactly once, whether or not DISCONNECT was seen", "E1 decision table + loop matcher + E3", 3)
 	td := c.teardown(ru1)
 	if td != nil {
